@@ -77,8 +77,16 @@ Definition set_closed (st : wstate) : wstate :=
   mkwstate (wf st) (wpos st) (wtitle st) (wnat st) (wfmt st) (wset st) (wbsz st) (wbox st)
            (wcur st) true.
 
+(* the announced count is already reached: writeline refuses the record (D18) *)
+Definition count_reached (st : wstate) : bool :=
+  match wnat st with
+  | Some n => (n <=? Z.of_nat (wcur st))%Z     (* self._current_atom >= self._natoms *)
+  | None => false
+  end.
+
 (* writeline on an initialised file *)
 Definition w_record (st : wstate) (s : wsetup) (r : grec) : res wstate :=
+  if count_reached st then Err EIO else             (* nothing is written *)
   let* line := parse_atomlist (s_w s) (s_d s) (s_vel s) r in
   let st1 := fwrite (fwrite st line) [NL] in
   Ok (set_cur st1 (S (wcur st1))).
@@ -166,16 +174,32 @@ Fixpoint w_run (st : wstate) (ops : list wop) : res wstate :=
   | o :: r => let* st' := w_step st o in w_run st' r
   end.
 
-(* the same run, keeping the state in which an operation failed.  close() checks the announced count
-   BEFORE it touches the file (OpCount: `elif self._natoms != self._current_atom: raise IOError`), and
-   OpSeek raises before seeking, so for a failing close the bytes on disk are those of the last good state.
-   (Not used for a failing record write, which may leave the header behind.) *)
+(* the same run, stopping at the first operation that fails and keeping the state it leaves.  close() checks
+   the announced count BEFORE it touches the file (OpCount: `elif self._natoms != self._current_atom: raise
+   IOError`), OpSeek raises before seeking, and a refused record writes nothing. *)
+(* the state a failing operation leaves.  A refused record, a failing count check and a failing seek do not
+   touch the file; the one exception is the FIRST writeline of a file whose announced count is <= 0:
+   _setup_write_file has written the title and count lines and fixed the format when its inner writeline
+   refuses the record (_atomline_bytesize stays None). *)
+Definition w_after_fail (st : wstate) (o : wop) : wstate :=
+  match o, wset st with
+  | OpRec r, None =>
+      let (w, d) := match wfmt st with
+                    | None => (DEFAULT_POS_FIGURES, DEFAULT_POS_DECIMALS)
+                    | Some f => f end in
+      match w_header st with
+      | Ok st3 => set_setup st3 (mkwsetup (wpos st3) w d (has_vel r))
+      | Err _ => st
+      end
+  | _, _ => st
+  end.
+
 Fixpoint w_run_keep (st : wstate) (ops : list wop) : wstate * option err :=
   match ops with
   | [] => (st, None)
   | o :: r => match w_step st o with
               | Ok st' => w_run_keep st' r
-              | Err e => (st, Some e)
+              | Err e => (w_after_fail st o, Some e)
               end
   end.
 
